@@ -22,7 +22,9 @@ LEVEL_NOTE = (
 )
 TECHNIQUE = "model-based property testing over generated histories (Hypothesis) against a from-scratch reference interpreter"
 RULE = (
-    "Hypothesis draws a registry world (stored calls, stored literals, pure and dependent sources, unstored chains, "
+    "Hypothesis draws a registry world (stored calls, stored literals, pure and dependent sources, alias sources, "
+    "sources with extra dependencies, registry.add issued late in any order, literal chains / barrier idiom, calls that "
+    "read a store directly and are ordered after it by a plain dependency (possibly through a literal), unstored chains, "
     "plain-dependency edges, unpack/gather nodes) and a history of 2..7 operations (run / run with fault at op k in "
     "{before, after, BaseException, dead} / source update / delete stored value / run with fresh_time = clock - d), always "
     "ending in a plain run. Oracle after every run that returns normally: output == from-scratch value, every "
